@@ -37,7 +37,8 @@ GoodOp(ev) ==
   LET F == Fmt(ev.t, EvN(ev)) x == X(ev) IN
   /\ ev.o = "ok"
   /\ OperandsMatch(ev)
-  /\ (Pre(ev.op, F[1], F[2], x) => Accept(ev.op, ev.sp, F[1], F[2], x, ev.r))
+  /\ IF ev.op = "mathconst" THEN ev.r = ev.r2      \* MathConsts and FloatConst spellings agree
+     ELSE (Pre(ev.op, F[1], F[2], x) => Accept(ev.op, ev.sp, F[1], F[2], x, ev.r))
 
 DiagOp(ev) ==
   LET F == Fmt(ev.t, EvN(ev)) x == X(ev) IN
